@@ -818,6 +818,22 @@ def ix15(model):
 
 
 # ----------------------------------------------------------------------------- AC3
+def _is_partition_sep(fnode, name):
+    """name is bound exactly once, as the middle element of <text>.partition('\\n') / rpartition('\\n')"""
+    hits = []
+    for m in ast.walk(fnode):
+        if isinstance(m, ast.Assign):
+            for t in m.targets:
+                for x in ast.walk(t):
+                    if isinstance(x, ast.Name) and x.id == name:
+                        good = isinstance(t, ast.Tuple) and len(t.elts) == 3 and t.elts[1] is x \
+                            and isinstance(m.value, ast.Call) and isinstance(m.value.func, ast.Attribute) \
+                            and m.value.func.attr in ('partition', 'rpartition') and len(m.value.args) == 1 \
+                            and isinstance(m.value.args[0], ast.Constant) and m.value.args[0].value == '\n'
+                        hits.append(good)
+    return len(hits) == 1 and hits[0]
+
+
 def ac3(model):
     r = RuleResult('AC3', 'line-removal pass: a token can start or end a line only if it contains a '
                    'line break, and is blank only if it contains none (the three flags partition '
@@ -829,11 +845,8 @@ def ac3(model):
     for n in ast.walk(f.node):
         if isinstance(n, ast.Assign) and isinstance(n.targets[0], ast.Attribute) and n.targets[0].attr in want \
                 and not isinstance(n.value, ast.Constant) \
-                and any(isinstance(x, ast.Attribute) and x.attr == 'txt' or isinstance(x, ast.Name) and x.id == 'txt'
-                        or isinstance(x, ast.Constant) and x.value == '\n' for x in ast.walk(n.value)) \
-                or isinstance(n, ast.Assign) and isinstance(n.targets[0], ast.Attribute) and n.targets[0].attr in want \
-                and isinstance(n.value, ast.Name) and any(
-                    isinstance(v, ast.Compare) or isinstance(v, ast.BoolOp) for v in T.resolve_local(model, n.value)):
+                and not (isinstance(n.value, ast.Name) and getattr(n, '_fn', None) is not None
+                         and n.value.id in n._fn.params):
             attr = n.targets[0].attr
             seen.add(attr)
             facts0 = []
@@ -849,9 +862,15 @@ def ac3(model):
             has_nl = [(e, t) for e, t in facts if isinstance(e, ast.Compare) and isinstance(e.left, ast.Constant)
                       and e.left.value == '\n' and isinstance(e.ops[0], (ast.In, ast.NotIn))]
             ok = any((isinstance(e.ops[0], ast.In) == t) == want[attr] for e, t in has_nl)
+            # the separator returned by str.partition('\n') is non-empty iff the text has a line break
+            for e, t in facts:
+                x = e.args[0] if isinstance(e, ast.Call) and getattr(e.func, 'id', '') == 'bool' and len(e.args) == 1 else e
+                if isinstance(x, ast.Name) and _is_partition_sep(n._fn.node if getattr(n, '_fn', None) else f.node, x.id):
+                    if t == want[attr]:
+                        ok = True
             if ok:
                 r.ok(n, '%s requires %s line break in the token' % (attr, 'a' if want[attr] else 'no'), nontrivial=True)
-            elif any(isinstance(x, ast.Call) and T.call_name(x) in ('count', 'find', 'rfind', 'splitlines', 'index')
+            elif any(isinstance(x, ast.Call) and T.call_name(x) in ('count', 'find', 'rfind', 'splitlines', 'index', 'partition', 'rpartition', 'split')
                      for e, t in facts if not isinstance(e, ast.UnaryOp) for x in [e] + (e.comparators if isinstance(e, ast.Compare) else [])
                      if isinstance(x, ast.Call)):
                 r.undec(n, '%s: line-break condition in another form' % attr)
